@@ -54,7 +54,7 @@ StaticCount(st, kind, m, n) == Cardinality({j \in DOMAIN st : st[j].e = kind /\ 
 SpecCount(ev, kind, m, n) == Cardinality({j \in DOMAIN ev : ev[j].e = kind /\ (kind # "call" \/ m = "*" \/ (ev[j].f.k = "g" /\ ev[j].f.m = m /\ ev[j].f.n = n))})
 CoversStatic(st, ev) ==
   /\ \A i \in DOMAIN ev : ev[i].e = "import" =>
-        (ev[i].m = "builtins" \/ \E j \in DOMAIN st : st[j].e = "import" /\ st[j].m = ev[i].m /\ st[j].n = ev[i].n)
+        (ev[i].m = "builtins" \/ \E j \in DOMAIN st : st[j].e = "import" /\ st[j].m = ev[i].m)
   /\ \A i \in DOMAIN ev : (ev[i].e = "call" /\ ev[i].f.k = "g") =>
         StaticCount(st, "call", ev[i].f.m, ev[i].f.n) >= SpecCount(ev, "call", ev[i].f.m, ev[i].f.n)
   /\ StaticCount(st, "call", "*", "*") >= SpecCount(ev, "call", "*", "*")
